@@ -1,6 +1,7 @@
 import ShellOp.Proofs.Backoff
 import ShellOp.Proofs.Retry
 import ShellOp.Proofs.HookOutput
+import ShellOp.Proofs.Wait
 /-!
 # C04 — failed runs are retried until success and block the queue unless allowFailure
 
@@ -665,5 +666,126 @@ open ShellOp.HookOutput in
 example : Reaches "{\"name\":\"m\",\"set\":1}}".toList "}".toList :=
   .doc _ (.obj [("name".toList, .str "m".toList), ("set".toList, .num)]) "}".toList _ rfl (by decide) rfl
     (.refl _)
+
+/-! ## C04.7 "non-zero exit": a process that did not exit at all
+
+`os.ProcessState.ExitCode()` is -1 for a process terminated by a signal; `cmd.Run()` reports every end
+other than "exited with status 0" as an error (`ProcEnd.success`). -/
+
+open ShellOp.HookOutput in
+/-- `runOk` for a process that exited is `hookOk` of its status code. -/
+theorem runOk_exited (code : Nat) (metrics : List Char) (patchOk : Bool) :
+    runOk (.exited code) metrics patchOk = hookOk code metrics patchOk := by
+  cases code <;> simp [runOk, hookOk, ProcEnd.success]
+
+open ShellOp.HookOutput in
+/-- **C04.7 `abnormal_end_is_failed_run`**: a hook process that ended in any way other than
+"exited with status 0" — every non-zero status, every terminating signal (SIGKILL by the OOM killer,
+SIGTERM, a crash with SIGSEGV …), whatever it had written to its output files before — is a *failed*
+run: for a head task that does not allow failure the task stays at the head with the contexts it
+was executed with, its failure counter grows, the worker sleeps the back-off. -/
+theorem abnormal_end_is_failed_run (cfg : Cfg) (s : State) (t : Task) (rest : List Task) (rnd : Nat)
+    (p : ProcEnd) (metrics : List Char) (patchOk : Bool) (hp : p ≠ .exited 0)
+    (hs : s.items = t :: rest) (ht : t.typ = 0) (hm : t.hasMeta = true)
+    (nd : ((t :: rest).map (·.id)).Nodup)
+    (hr : shouldRunHook (cfg.version t.hook) t = true) (ha : t.allowFailure = false) :
+    let s' := step cfg s (.run (runOk p metrics patchOk) rnd)
+    s'.items = ranTask cfg t rest :: restAfter cfg t rest ∧
+    (ranTask cfg t rest).id = t.id ∧
+    s'.fc t.id = s.fc t.id + 1 ∧
+    s'.sleep = cfg.backoff (s.fc t.id) rnd ∧
+    s'.log = s.log ++ [⟨t.id, t.hook, (ranTask cfg t rest).ctxs, false, s.clock + s.sleep⟩] := by
+  have hok : runOk p metrics patchOk = false := by
+    cases p with
+    | exited code =>
+      cases code with
+      | zero => exact absurd rfl hp
+      | succ n => simp [runOk, ProcEnd.success]
+    | signaled sig => simp [runOk, ProcEnd.success]
+  rw [hok]
+  exact fail_keeps_head cfg s t rest rnd hs ht hm nd hr ha
+
+open ShellOp.HookOutput in
+/-- **C04.7 `killed_run_is_failed_run`**: the instance for a terminating signal. -/
+theorem killed_run_is_failed_run (sig : Nat) (metrics : List Char) (patchOk : Bool) :
+    runOk (.signaled sig) metrics patchOk = false := by
+  simp [runOk, ProcEnd.success]
+
+open ShellOp.HookOutput in
+example : runOk (.signaled 9) [] true = false ∧ runOk (.exited 255) [] true = false
+    ∧ runOk (.exited 0) [] true = true
+    ∧ runOk (.signaled 15) "{\"name\":\"m\",\"set\":1}\n".toList true = false := by decide
+
+/-! ## C04.8 "a back-off delay never shorter than the initial delay": `CancelTaskDelay`
+
+`CancelTaskDelay()` (public; embedding operators wake a queue with it) breaks the wait loop that is
+*in progress*. A request that arrives while no wait is in progress — the worker is inside the
+handler — leaves nothing behind, and the back-off that starts after a failure of that very run
+lasts its full length. (A request during the back-off itself ends it: that is what the call is for;
+`cancel_during_wait_witness`.) -/
+
+open ShellOp.Wait in
+/-- **C04.8 `earlier_cancel_does_not_cut_backoff`**: whatever number of `CancelTaskDelay()` calls
+arrived while the handler was running (`f0.inProgress = false`), they change nothing, and the
+`waitForTask(sleepDelay)` that follows with `sleepDelay ≠ 0` returns the head task only on a tick
+whose elapsed time has reached `sleepDelay` — for every tick sequence and queue content. It holds
+for *every* value of the flags at the start of the wait: the wait resets them. -/
+theorem earlier_cancel_does_not_cut_backoff (emptyDelay sleepDelay n : Nat) (nonEmpty : Bool) (f0 : Flags)
+    (evs : List WEv) (e : Nat) (hidle : f0.inProgress = false) (hd : sleepDelay ≠ 0)
+    (hno : ∀ ev ∈ evs, ev ≠ WEv.cancel)
+    (h : (waitForTask emptyDelay sleepDelay nonEmpty (cancels n f0) evs).1 = some e) :
+    cancels n f0 = f0 ∧ sleepDelay ≤ e := by
+  refine ⟨cancels_noop_outside_wait n f0 hidle, ?_⟩
+  have hd' : (sleepDelay == 0) = false := by simpa using hd
+  simp only [waitForTask, hd', Bool.and_false, Bool.false_eq_true, if_false, bne, Bool.not_false, if_true] at h
+  cases hl : (loop emptyDelay sleepDelay { inProgress := true, cancel := false } evs).1 with
+  | none => rw [hl] at h; simp at h
+  | some e' =>
+    rw [hl] at h
+    simp only [Option.some.injEq] at h
+    subst h
+    exact loop_full emptyDelay evs sleepDelay _ _ rfl hno hl
+
+open ShellOp.Wait in
+/-- **C04.8 `wait_whatever_was_pending`**: the same bound for arbitrary flags at the start of the
+wait (in particular a stale `cancelDelay = true`): `waitForTask` starts from clean flags. -/
+theorem wait_whatever_was_pending (emptyDelay sleepDelay : Nat) (nonEmpty : Bool) (f : Flags)
+    (evs : List WEv) (e : Nat) (hd : sleepDelay ≠ 0) (hno : ∀ ev ∈ evs, ev ≠ WEv.cancel)
+    (h : (waitForTask emptyDelay sleepDelay nonEmpty f evs).1 = some e) :
+    sleepDelay ≤ e ∧ (waitForTask emptyDelay sleepDelay nonEmpty f evs).2 = {} := by
+  have hd' : (sleepDelay == 0) = false := by simpa using hd
+  simp only [waitForTask, hd', Bool.and_false, Bool.false_eq_true, if_false, bne, Bool.not_false, if_true] at h ⊢
+  cases hl : (loop emptyDelay sleepDelay { inProgress := true, cancel := false } evs).1 with
+  | none => rw [hl] at h; simp at h
+  | some e' =>
+    rw [hl] at h
+    simp only [Option.some.injEq] at h
+    subst h
+    exact ⟨loop_full emptyDelay evs sleepDelay _ _ rfl hno hl, rfl⟩
+
+open ShellOp.Wait in
+/-- Non-vacuity: two cancels while the handler runs, then a 30 ms back-off with ticks every 2 ms … -/
+example : (waitForTask 4 30 true (cancels 2 {}) [.tick 2 false, .tick 28 false, .tick 30 false, .tick 32 false]).1
+    = some 30 := by decide
+
+open ShellOp.Wait in
+/-- The hypothesis "no cancel during the wait" is needed: a cancel during the back-off ends it on
+the next tick (the purpose of the call). -/
+theorem cancel_during_wait_witness :
+    (waitForTask 4 30 true {} [.tick 2 false, .cancel, .tick 4 false]).1 = some 4 := by decide
+
+/-! ## C04.5 again: bindings that share a name
+
+Binding names are not unique (unnamed schedule bindings are all called `schedule`): contexts of two
+tasks can be equal as values while their tasks differ in `allowFailure`. `no_discard` quantifies
+over all contexts, equal ones included; this is the layout as a witness. -/
+theorem no_discard_same_binding_name_witness :
+    let cfg := repaired (fun _ => 1) (fun k _ => 5 + k)
+    let s : State := { items := [{ id := 1, allowFailure := true, ctxs := [⟨7, 3, 0⟩] },
+                                 { id := 2, allowFailure := false, ctxs := [⟨7, 3, 0⟩] }] }
+    (step cfg s (.run false 0)).items = [{ id := 2, allowFailure := false, ctxs := [⟨7, 3, 0⟩] }] ∧
+    (step cfg (step cfg s (.run false 0)) (.run false 0)).items
+      = [{ id := 2, allowFailure := false, ctxs := [⟨7, 3, 0⟩] }] ∧
+    (step (unrepaired (fun _ => 1) (fun k _ => 5 + k)) s (.run false 0)).items = [] := by decide
 
 end ShellOp.Retry.C04
